@@ -14,19 +14,23 @@ Why(c) ==
       np == Len(ps)
       rows == c.obs.rows
       tol(z) == Total(c, z) + 2
+      \* a reporting date at which the (filtered) portfolio holds nothing has no column
+      shown == SelectSeq([k \in 1..np |-> k], LAMBDA k : \E cc \in Comms(c) : Holding(c, cc, ps[k].e) # 0)
+      nS == Len(shown)
+      E(j) == ps[shown[j]].e
   IN IF c.obs.wexit # 0 THEN "weights-failed"
-     ELSE IF c.obs.cols # [k \in 1..np |-> ps[k].e] THEN "weights-columns-are-not-the-period-ends"
+     ELSE IF c.obs.cols # [j \in 1..nS |-> E(j)] THEN "weights-columns-are-not-the-period-ends"
      \* every shown node: weight x total = value below that node
-     ELSE IF \E n \in 1..Len(rows) : \E k \in 1..np :
-               Total(c, ps[k].e) > 0 /\
-               Abs2(rows[n].w[k] * Total(c, ps[k].e) - NodeValue(c, rows[n].path, ps[k].e) * 1000000) > tol(ps[k].e) THEN "weight-differs-from-valued-holdings"
+     ELSE IF \E n \in 1..Len(rows) : \E j \in 1..nS :
+               Total(c, E(j)) > 0 /\
+               Abs2(rows[n].w[j] * Total(c, E(j)) - NodeValue(c, rows[n].path, E(j)) * 1000000) > tol(E(j)) THEN "weight-differs-from-valued-holdings"
      \* every held commodity is shown
-     ELSE IF \E cc \in Comms(c) : \E k \in 1..np : Holding(c, cc, ps[k].e) # 0 /\ Total(c, ps[k].e) > 0
+     ELSE IF \E cc \in Comms(c) : \E j \in 1..nS : Holding(c, cc, E(j)) # 0 /\ Total(c, E(j)) > 0
                 /\ ~\E n \in 1..Len(rows) : rows[n].path = PathOf(c, cc) THEN "held-commodity-missing"
      \* the top level sums to 100%
-     ELSE IF \E k \in 1..np : Total(c, ps[k].e) > 0 /\
+     ELSE IF \E j \in 1..nS : Total(c, E(j)) > 0 /\
                LET top == {n \in 1..Len(rows) : Len(rows[n].path) = 1}
-                   s == SumOver(SetToSeq(top), LAMBDA n : rows[n].w[k])
+                   s == SumOver(SetToSeq(top), LAMBDA n : rows[n].w[j])
                IN Abs2(s - 1000000) > 2 * Cardinality(top) + 2 THEN "top-level-does-not-sum-to-100"
      ELSE IF c.obs.rexit # 0 THEN "returns-failed"
      \* a return for every period of the requested partition
